@@ -250,4 +250,7 @@ func TestVerifC29Core(t *testing.T) {
 	})
 	r.Cases("core-ed-rand", r.Scale(400), func(c *vcommon.Case) { edRandom(c, tor) })
 	r.Cases("core-ed-special", r.Scale(14*10), func(c *vcommon.Case) { edSpecialA(c, specialEncs[c.Idx%len(specialEncs)]) })
+	// completion marker: TestVerifC29Batch runs before this function in the same process and puts a floor of one per
+	// shard on it, so a process-fatal error in here (which the driver cannot see once a summary exists) is not silent
+	r.Count("core_run_completed", 1)
 }
